@@ -3403,6 +3403,11 @@ func (c *Compiler) lowerCurrentOpcode() {
 			break
 		}
 		_, _ = typeIndex, tableIndex
+		if c.ensureTermination {
+			// A tail call replaces the frame instead of growing the stack, so a cycle of tail calls
+			// is as unbounded as a loop: it needs the same exit code check as a loop header.
+			c.insertModuleExitCodeCheck()
+		}
 		c.lowerTailCallReturnCallIndirect(typeIndex, tableIndex)
 		state.unreachable = true
 
@@ -3410,6 +3415,10 @@ func (c *Compiler) lowerCurrentOpcode() {
 		fnIndex := c.readI32u()
 		if state.unreachable {
 			break
+		}
+		if c.ensureTermination {
+			// See OpcodeTailCallReturnCallIndirect.
+			c.insertModuleExitCodeCheck()
 		}
 		c.lowerTailCallReturnCall(fnIndex)
 		state.unreachable = true
@@ -3425,6 +3434,22 @@ func (c *Compiler) lowerCurrentOpcode() {
 		fmt.Println("--------------------------")
 	}
 	c.loweringState.pc++
+}
+
+// insertModuleExitCodeCheck emits the call that leaves the function when the module has been closed
+// (the same sequence as at a loop header).
+func (c *Compiler) insertModuleExitCodeCheck() {
+	builder := c.ssaBuilder
+	checkModuleExitCodePtr := builder.AllocateInstruction().
+		AsLoad(c.execCtxPtrValue,
+			wazevoapi.ExecutionContextOffsetCheckModuleExitCodeTrampolineAddress.U32(),
+			ssa.TypeI64,
+		).Insert(builder).Return()
+
+	args := c.allocateVarLengthValues(1, c.execCtxPtrValue)
+	builder.AllocateInstruction().
+		AsCallIndirect(checkModuleExitCodePtr, &c.checkModuleExitCodeSig, args).
+		Insert(builder)
 }
 
 func (c *Compiler) lowerReturn(builder ssa.Builder) {
